@@ -65,7 +65,7 @@ func (prop) Describe() core.Description {
 		RealComponents: []string{"go-geom root package: Polygon, MultiPoint, MultiLineString, MultiPolygon, GeometryCollection (Push, accessors, Coords, Reverse, Swap, Clone, SetSRID, SetLayout) and the part constructors"},
 		StubComponents: []string{"the caller (seeded operation history, including rejected and self-aliasing operations)"},
 		FaultKinds:     []string{"rejected-push", "rejected-variadic-push", "self-alias-push"},
-		Probes:         []string{"probe:polygon(i)-after->=2-empty-polygons", "probe:push-after-leading-empties", "probe:reject-after-nonempty", "probe:reverse-with-empty-part", "probe:variadic-reject-at-j>0", "probe:swap", "probe:clone", "probe:same-stride-wrong-layout", "probe:empty-part", "probe:layout>4", "probe:persistent-polygon-push", "probe:persistent-polygon-pushed-into-receiver", "probe:push-onto-accessor-part"},
+		Probes:         []string{"probe:polygon(i)-after->=2-empty-polygons", "probe:push-after-leading-empties", "probe:reject-after-nonempty", "probe:reverse-with-empty-part", "probe:variadic-reject-at-j>0", "probe:swap", "probe:clone", "probe:same-stride-wrong-layout", "probe:empty-part", "probe:layout>4", "probe:persistent-polygon-push", "probe:persistent-polygon-pushed-into-receiver", "probe:push-onto-accessor-part", "probe:pushed-part-overwritten-afterwards"},
 	}
 }
 
@@ -434,7 +434,17 @@ func coordsEqual(lib []geom.Coord, model []mgeom.Coord, nilIsEmpty bool) string 
 	return ""
 }
 
-// checkCoords compares Coords() with the concatenation of the parts.
+func scribble(cs []geom.Coord) {
+	for _, c := range cs {
+		for i := range c {
+			c[i] = -4242.5
+		}
+	}
+}
+
+// checkCoords compares Coords() with the concatenation of the parts, then
+// overwrites the returned coordinates: they are a fresh copy, so the receiver
+// must not notice (the next observation checks that).
 func (r *lrecv) checkCoords(m *recv) string {
 	switch r.kind {
 	case mgeom.Pg, mgeom.MLS:
@@ -451,6 +461,7 @@ func (r *lrecv) checkCoords(m *recv) string {
 			if d := coordsEqual(cs[i], m.Parts[i].P[0][0], true); d != "" {
 				return fmt.Sprintf("Coords()[%d]: %s", i, d)
 			}
+			scribble(cs[i])
 		}
 	case mgeom.MPt:
 		cs := r.mpt.Coords()
@@ -468,6 +479,7 @@ func (r *lrecv) checkCoords(m *recv) string {
 			if d := coordsEqual([]geom.Coord{cs[i]}, want, false); d != "" {
 				return fmt.Sprintf("Coords()[%d]: %s", i, d)
 			}
+			scribble([]geom.Coord{cs[i]})
 		}
 	case mgeom.MPg:
 		cs := r.mpg.Coords()
@@ -483,6 +495,7 @@ func (r *lrecv) checkCoords(m *recv) string {
 				if d := coordsEqual(cs[i][j], rings[j], true); d != "" {
 					return fmt.Sprintf("Coords()[%d][%d]: %s", i, j, d)
 				}
+				scribble(cs[i][j])
 			}
 		}
 	}
@@ -770,6 +783,15 @@ func (prop) Execute(scAny any, phase string, log *core.Log) core.Result {
 				}
 				mv.Parts = append(mv.Parts, pm)
 				successes++
+				if s.Kind != mgeom.GC && op.K == "push" && oi%3 == 0 {
+					// the caller keeps using its part object: Push copied it,
+					// so overwriting it must not show in the receiver
+					fc := pg.FlatCoords()
+					for i := range fc {
+						fc[i] = -777.125
+					}
+					res.Count("probe:pushed-part-overwritten-afterwards", 1)
+				}
 			} else {
 				sawReject = true
 				res.Count("rejected-push", 1)
